@@ -34,6 +34,9 @@ pub struct CliCase {
     pub info: Option<FileSpec>,
     /// what the generator intended: "valid" | "invalid:<reason>" | "arbitrary"
     pub intent: String,
+    /// validate: write the report to a file (--output) instead of stdout
+    #[serde(default)]
+    pub report_file: bool,
 }
 
 impl CliCase {
@@ -217,6 +220,9 @@ pub fn eval(c: &CliCase, obs: &mut Obs) -> Vec<Violation> {
             if let Some(p) = &apath {
                 args.extend(["--audio".into(), p.clone()]);
             }
+            if c.report_file {
+                args.extend(["--output".into(), format!("{}/report.json", dir)]);
+            }
         }
         _ => {
             args.push(ipath.clone().unwrap_or_else(|| format!("{}/missing.bin", dir)));
@@ -324,7 +330,9 @@ pub fn eval(c: &CliCase, obs: &mut Obs) -> Vec<Violation> {
         "validate" => {
             let ok_file = |f: &Option<FileSpec>| f.as_ref().map(|f| f.exists && hex_text(&f.content).is_some());
             let want_valid = (c.video.is_some() || c.audio.is_some()) && ok_file(&c.video).unwrap_or(true) && ok_file(&c.audio).unwrap_or(true);
-            let verdict = if c.json {
+            let verdict = if c.report_file {
+                std::fs::read_to_string(format!("{}/report.json", dir)).ok().and_then(|t| serde_json::from_str::<serde_json::Value>(&t).ok()).and_then(|j| j["valid"].as_bool())
+            } else if c.json {
                 serde_json::from_str::<serde_json::Value>(ran.stdout.trim()).ok().and_then(|j| j["valid"].as_bool())
             } else if ran.stdout.contains("Validation successful") {
                 Some(true)
